@@ -288,45 +288,6 @@ func runC01(p *core.Program, r *core.Report) {
 			r.OK("TILE", construct, p.Pos(fn.Pos()), "every exit has no unclaimed rune after the last child (or the node is a leaf)")
 		}
 	}
-	// helpers (functions that take the parser but are not node parse methods
-	// and were reached from one): entered with nothing unclaimed, a helper
-	// that can return with MORE THAN ONE consumed rune unclaimed is where a
-	// gap starts - reporting it here names the culprit instead of its callers
-	var helpers []*ssa.Function
-	for f := range e.analysed {
-		isRoot := false
-		for _, rt := range roots {
-			if rt == f {
-				isRoot = true
-			}
-		}
-		if isRoot || !inParsePkg(f) || f.Blocks == nil {
-			continue
-		}
-		// only plain functions: methods of node types consume the runes that
-		// are the node's own text (a leaf), methods of parser are the
-		// rune-level primitives themselves
-		if f.Signature.Recv() != nil || f.Parent() != nil {
-			continue
-		}
-		helpers = append(helpers, f)
-	}
-	sort.Slice(helpers, func(i, j int) bool { return helpers[i].String() < helpers[j].String() })
-	for _, f := range helpers {
-		out := e.summary(f, tileSt{0, false})
-		worst := 0
-		for s := range out {
-			if s.pend > worst {
-				worst = s.pend
-			}
-		}
-		construct := core.FnKey(f) + " helper leaves at most one rune for its caller to claim"
-		if worst >= 2 {
-			r.Bad("TILE", construct, p.Pos(f.Pos()), fmt.Sprintf("entered with every consumed rune claimed, this helper can return with %s consumed runes that it attached to no node (a run of whitespace or a separator that is consumed but never turned into a Sep): every caller then parses its next child over a gap", pendStr(worst)))
-		} else {
-			r.OK("TILE", construct, p.Pos(f.Pos()), fmt.Sprintf("returns with at most %d unclaimed rune(s)", worst))
-		}
-	}
 	for k, v := range e.events {
 		r.Count("TILE event sites visited (path-multiplied) "+k, v)
 	}
@@ -764,8 +725,10 @@ func runErrPos(p *core.Program, r *core.Report) {
 	if !r.Anchor("ERRPOS", "(*parse.parser).errorp", errorp != nil) {
 		return
 	}
+	// keyed by the error reported (the site may move between functions in a
+	// refactoring; the error it reports does not)
 	auditedSub := map[string]string{
-		"(*parse.Primary).doubleQuotedInner": "From = pos-4 right after the backslash and three octal digits (four one-byte runes) were consumed by next()",
+		"errInvalidEscapeOctOverflow": "From = pos-4 right after the backslash and three octal digits (four one-byte runes) were consumed by next()",
 	}
 	for _, fn := range p.FnsInPkg(pkgParse) {
 		core.Instrs(fn, func(ins ssa.Instruction) {
@@ -774,6 +737,14 @@ func runErrPos(p *core.Program, r *core.Report) {
 				return
 			}
 			fk := core.FnKey(fn)
+			errName := ""
+			if len(c.Call.Args) > 2 {
+				if addr, isLd := core.IsLoad(core.Unwrap(c.Call.Args[2])); isLd {
+					if g, isG := addr.(*ssa.Global); isG {
+						errName = g.Name()
+					}
+				}
+			}
 			rng := core.Unwrap(c.Call.Args[1])
 			var comps []string
 			status, detail := "ok", ""
@@ -795,7 +766,7 @@ func runErrPos(p *core.Program, r *core.Report) {
 				case "bad":
 					status, detail = "bad", names[i]+" is "+shape+": not a position the parser has visited (may lie outside the source)"
 				case "sub":
-					if _, ok := auditedSub[fk]; !ok && status != "bad" {
+					if _, ok := auditedSub[errName]; !ok && status != "bad" {
 						status, detail = "bad", names[i]+" is "+shape+": subtracting from the position is only accepted at audited sites"
 					} else if status == "ok" {
 						status = "audit"
@@ -807,7 +778,7 @@ func runErrPos(p *core.Program, r *core.Report) {
 			case "ok":
 				r.OK("ERRPOS", construct, p.InsPos(ins), "both ends are visited parser positions (pos, a saved pos, or pos+1 guarded by pos < len(src))")
 			case "audit":
-				r.Audit("ERRPOS", construct, p.InsPos(ins), auditedSub[fk])
+				r.Audit("ERRPOS", construct, p.InsPos(ins), auditedSub[errName])
 			default:
 				r.Bad("ERRPOS", construct, p.InsPos(ins), detail)
 			}
